@@ -255,6 +255,15 @@ def opScopes (a : List String) : String :=
   | .err => "err"
   | .panic => "panic"
 
+def opScopesD (a : List String) : String :=
+  match calculateScopes scopeF (a.getD 0 "0").toNat! with
+  | .ok l =>
+    let h := l.foldl (fun (h : UInt64) s =>
+      [s.turnFrom, s.riverFrom, s.turnTo, s.riverTo].foldl (fun h x => (h ^^^ x.toUInt64) * 0x100000001b3) h) 0xcbf29ce484222325
+    s!"ok wf=1 digest={h.toNat}"
+  | .err => "err"
+  | .panic => "panic"
+
 /-- oracle: C16's conditions on the scope list the implementation printed are checked by the check script
 (`scopes-wf`): starts at (0,1), ends at (48,49), chained, never backwards, valid positions, n scopes -/
 def specScopes (a : List String) : Option String := some s!"scopes-wf:{a.getD 0 "0"}"
@@ -278,6 +287,29 @@ def opC11 (a : List String) : String :=
       | _ => "panic"
     | _ => "panic"
 
+/-- number of legal deals of one iterator request according to the specification (`Spec.deals`): depends on nothing
+but the request's own flop, ranges and scope -/
+def specIterCount (a : List String) : Option Nat :=
+  match parseIter a with
+  | none => none
+  | some q =>
+    match q.board with
+    | [some f0, some f1, some f2, none, none] =>
+      let flop := [f0.code, f1.code, f2.code]
+      let (tf, rf, tt, rt) := if q.setScope == 0 then (0, 1, 48, 49) else q.scope
+      let entries : List (List (Nat × Nat × UInt32)) := q.ranges.map (·.map fun (cp, w) => (cp.fst.code, cp.snd.code, w))
+      let wf := flop.Nodup && validPos (tf, rf) && validPos (tt, rt) && Spec.posLe (tf, rf) (tt, rt)
+      if wf then some (Spec.deals flop entries (tf, rf) (tt, rt)).length else none
+    | _ => none
+
+/-- oracle for `c15`: every instance yields the number of showdowns its OWN input determines, and the interleaved and
+threaded runs equal the solo runs -/
+def specC15 (a : List String) : Option String :=
+  let ns := (splitBars (a.drop 2)).map specIterCount
+  if ns.all Option.isSome then
+    some s!"all:nopanic;;has:inter=1 threads=1 n={",".intercalate (ns.map fun n => toString (n.getD 0))} "
+  else some "all:nopanic;;has:inter=1 threads=1 "
+
 def textOp (op : String) (a : List String) : Option String :=
   match op with
   | "parse_token" => some (opParseToken a)
@@ -288,6 +320,7 @@ def textOp (op : String) (a : List String) : Option String :=
   | "c15" => some (opC15 a)
   | "c11" => some (opC11 a)
   | "scopes" => some (opScopes a)
+  | "scopes_d" => some (opScopesD a)
   | "scopes_e2e" => some "ok e2e=1"
   | _ => none
 
@@ -300,9 +333,10 @@ def textSpec (op : String) (a : List String) : Option String :=
       | none => some "all:[C09]nopanic")
   | "range_ops" => specRangeOps a
   | "canon" => specCanon a
-  | "c15" => some "all:nopanic;;has:inter=1 threads=1 "
+  | "c15" => specC15 a
   | "c11" => some "all:nopanic;;has:suits=1 players=1 pot=1 "
   | "scopes" => specScopes a
+  | "scopes_d" => some "all:nopanic;;has:wf=1 "
   | "scopes_e2e" => some "all:nopanic;;has:e2e=1 "
   | _ => none
 
